@@ -68,6 +68,15 @@ type Program struct {
 	Jitter  int    `json:"jitter"`  // ms slept before the program starts (phase against the sweeper)
 	Unit    int    `json:"unit"`    // real milliseconds per tick of this program (0: the default of the run)
 	Restart bool   `json:"restart"` // restart a server from a copy of the data directory at the end
+	// Hold: a side connection holds the server's shared lock (dev command SLEEP) from tick At for Ticks ticks: the sweeper
+	// and every write wait for it, and whichever of them gets the lock first when it ends is the order of the run
+	Hold *HoldSpec `json:"hold,omitempty"`
+}
+
+// HoldSpec is a period during which a reader keeps the server lock.
+type HoldSpec struct {
+	At    int `json:"at"`
+	Ticks int `json:"ticks"`
 }
 
 // Options of a run.
@@ -662,6 +671,19 @@ func Run(p *Program, o Options) (*Result, error) {
 		}
 	}
 
+	if p.Hold != nil {
+		hc, err := srv.Dial()
+		if err != nil {
+			return nil, err
+		}
+		defer hc.Close()
+		go func() {
+			if d := time.Until(wall0.Add(time.Duration(p.Hold.At) * unit)); d > 0 {
+				time.Sleep(d)
+			}
+			hc.Do("SLEEP", fmt.Sprintf("%.3f", (time.Duration(p.Hold.Ticks) * unit).Seconds()))
+		}()
+	}
 	var late int64
 	nstep := 0
 	var probe *Step
